@@ -142,6 +142,24 @@ def scen_delta(env, n, kind):
             env.note('delta-filtered')
 
 
+def scen_delta_nan(env):
+    """float NaN (a legal event value) after a value has passed: its distance from the last passed value is not
+    'at least delta' (the comparison is false), so it is dropped and the reference value stays.  Concrete floats -
+    the symbolic reals of scen_delta have no NaN."""
+    nan = float('nan')
+    delta = env.pick([0, 0.5, 5], 'delta')
+    first = env.pick([10.0, -3], 'first')
+    third = env.pick([10.1, 19.5, -3, 4.5], 'third')
+    f = edzed.Delta(delta)
+    sink = []
+    r1 = f({'value': first})
+    r2 = f({'value': nan})
+    r3 = f({'value': third})
+    env.note('delta-nan')
+    env.check('delta-step', bool(r1) and not r2 and bool(r3) == (abs(first - third) >= delta),
+              info=lambda: (delta, first, third, r1, r2, r3))
+
+
 def scen_delta_induct(env, kind):
     """one step from an arbitrary 'last passed' value"""
     mk = (lambda n, lo=None: env.real(n, lo)) if kind == 'real' else (lambda n, lo=None: env.int(n, lo))
@@ -519,7 +537,8 @@ def shards(tier):
            {'name': 'edge forms and object values', 'scenario': 'scen_edge_forms'},
            {'name': 'dataedit two control blocks, two deliveries', 'scenario': 'scen_dataedit_two'},
            {'name': 'not_from_undef', 'scenario': 'scen_nfu'},
-           {'name': 'ctrl filters', 'scenario': 'scen_ctrl'}]
+           {'name': 'ctrl filters', 'scenario': 'scen_ctrl'},
+           {'name': 'delta NaN', 'scenario': 'scen_delta_nan'}]
     for kind in ('int', 'real'):
         out.append({'name': f'delta {kind} n={b["delta_len"]}', 'scenario': 'scen_delta',
                     'params': {'n': b['delta_len'], 'kind': kind}})
